@@ -209,14 +209,15 @@ class WorldCheck(Check):
                     cand = copy.deepcopy(plan)
                     cand['world']['comps'][ci]['ins'][ii]['via'] = 'connect'
                     yield cand
-        for v in w['dvs'] + w['resps']:
-            pass
         for key in ('dvs', 'resps'):
             for i, v in enumerate(w[key]):
-                for k in ('indices', 'index', 'scaler', 'adder', 'ref', 'ref0'):
-                    if k in v and not (k == 'index'):
+                # ref and ref0 go together: a lone ref0 means ref = 1, a different scaling (and ref0 = 1
+                # alone is a zero-width scaling OpenMDAO cannot represent), not a simpler one
+                for ks in (('indices',), ('scaler',), ('adder',), ('ref', 'ref0')):
+                    if any(k in v for k in ks):
                         cand = copy.deepcopy(plan)
-                        cand['world'][key][i].pop(k)
+                        for k in ks:
+                            cand['world'][key][i].pop(k, None)
                         yield cand
         for g, s in w['solvers'].items():
             if s['ln'] != 'direct':
@@ -1427,7 +1428,14 @@ class C02(HistoryCheck):
                 if ctx.get('moved'):
                     a.probes.inc('duality_after_history')
         if op['op'] == 'linops':
-            L = a.ref.lin_operator(y)
+            # The operator is the linearization at the state the model actually holds: with quadratic
+            # stubs behind an iterative nonlinear solver that state equals the exact root only to the
+            # solver's tolerance (outputs are judged against the root after every run_model), while the
+            # products are compared to 1e-10.
+            y_lin = a.model_state() if a.ref.quads else None
+            if y_lin is None or relerr(y_lin, y) > a.tol:
+                y_lin = y
+            L = a.ref.lin_operator(y_lin)
             v, w = ra['v'], ra['w']
             scale = 1.0 + float(np.abs(L).max()) * 4
             checks = [('Av', L @ v, 'apply_linear fwd'), ('ATw', L.T @ w, 'apply_linear rev')]
